@@ -13,7 +13,7 @@ KNOWN_FILE = os.path.join(VERIF, 'known_findings.json')
 
 class Obligation:
     __slots__ = ('rule', 'construct', 'what', 'ok', 'loc', 'path', 'detail',
-                 'nontrivial', 'info')
+                 'nontrivial', 'info', 'count')
 
     def __init__(self, rule, construct, what, ok, loc='', path=None, detail='',
                  nontrivial=True, info=False):
@@ -26,6 +26,7 @@ class Obligation:
         self.detail = detail
         self.nontrivial = nontrivial
         self.info = info
+        self.count = 1          # paths / sites on which this same obligation was evaluated
 
     @property
     def key(self):
@@ -34,6 +35,8 @@ class Obligation:
     def as_dict(self):
         d = {'rule': self.rule, 'construct': self.construct, 'what': self.what,
              'verdict': 'discharged' if self.ok else 'FAILED', 'loc': self.loc}
+        if self.count > 1:
+            d['evaluated_on'] = '%d paths/sites' % self.count
         if self.detail:
             d['detail'] = self.detail
         if self.path:
@@ -51,15 +54,22 @@ class Ctx:
         self.seed = seed
         self.quiet = quiet
         self.obs = []
+        self._bykey = {}
         self.infos = []
         self.notes = []
         self.analysed = {}          # category -> set of names
         self.t0 = time.time()
         self.extra = {}
+        self.deficits = []
 
     def ob(self, rule, construct, what, ok, loc='', path=None, detail='',
            nontrivial=True):
         o = Obligation(rule, construct, what, bool(ok), loc, path, detail, nontrivial)
+        prev = self._bykey.get((o.key, o.ok))
+        if prev is not None:
+            prev.count += 1
+            return prev
+        self._bykey[(o.key, o.ok)] = o
         self.obs.append(o)
         return o
 
@@ -70,11 +80,12 @@ class Ctx:
         self.analysed.setdefault(category, set()).add(name)
 
     def need(self, rule, minimum):
-        n = sum(1 for o in self.obs if o.rule == rule or o.rule.startswith(rule + '.'))
+        n = sum(o.count for o in self.obs if o.rule == rule or o.rule.startswith(rule + '.'))
         if n < minimum:
-            raise AnalysisError('rule %s matched %d instances, fewer than the %d '
-                                'confirmed by hand: the rule no longer sees its '
-                                'subjects' % (rule, n, minimum))
+            # deferred: a violation found elsewhere is still reported as such
+            self.deficits.append('rule %s matched %d instances, fewer than the %d '
+                                 'confirmed by hand: the rule no longer sees its '
+                                 'subjects' % (rule, n, minimum))
 
     def failures(self):
         return [o for o in self.obs if not o.ok]
@@ -144,7 +155,7 @@ def finish(ctx, spec, out=print):
             'explanation': spec['explanation'],
             'obligations': n,
             'discharged': nd,
-            'evaluations': n,
+            'evaluations': sum(o.count for o in ctx.obs),
             'distinct_nontrivial': distinct,
             'rule': ('each obligation is one (rule, construct, clause) instance '
                      'evaluated on the parsed source of the current working tree; '
@@ -173,6 +184,8 @@ def finish(ctx, spec, out=print):
     os.makedirs(EVIDENCE_DIR, exist_ok=True)
     with open(os.path.join(EVIDENCE_DIR, prop + '.json'), 'w') as f:
         json.dump(ev, f, indent=1, default=str)
+    if code == 0 and ctx.deficits:
+        raise AnalysisError('; '.join(ctx.deficits))
     if not ctx.quiet:
         for m in ctx.infos[:30]:
             out('INFO: ' + m)
